@@ -220,3 +220,16 @@ func (w *World) needVariant(c *Contract) bool {
 
 // lenientFrame: a contract without any modifies clause gets no frame checking.
 func (w *World) lenientFrame(c *Contract) bool { return true }
+
+func (w *World) isPure(name string) bool {
+	for _, p := range w.DB.Pure {
+		if strings.HasSuffix(p, "*") {
+			if strings.HasPrefix(name, p[:len(p)-1]) {
+				return true
+			}
+		} else if p == name {
+			return true
+		}
+	}
+	return false
+}
